@@ -965,3 +965,47 @@ def mutate_c3(rng, src):
         else:
             toks[i] = rng.choice(PUNCT + KW)
     return ''.join('\n' if t == '\n' else t + ' ' for t in toks)
+
+
+C3_INT_TYPES = [('int', 32, True), ('byte', 8, False), ('int8_t', 8, True), ('int16_t', 16, True), ('int32_t', 32, True),
+                ('int64_t', 64, True), ('uint8_t', 8, False), ('uint16_t', 16, False), ('uint32_t', 32, False),
+                ('uint64_t', 64, False)]
+C3_B_CTX = ['var T x = @;', 'const T C = @;', 'const T K = @ - 1; var T x = K + 1;', 'const int K = 1; var T x = @ - K + K;',
+            'var T x = cast<T>(@);', 'var T[2] x = {@, 1};', 'function void t() { var T x = @; }',
+            'function void t() { var T x; x = @; }', 'function T t() { return @; }',
+            'type struct { T a; } S; var S s = {.a = @};']
+C3_B_INT = ['var int[@] x;', 'function void t(int v) { switch (v) { case @: { } default: { } } }',
+            'function int t(int v) { return v + @; }', 'function bool t(int v) { return v < @; }', 'var int x = 1 << @;',
+            'var int x = @ / 1;', 'var int x = @ % 7;', 'var int x = -(@);']
+
+
+def c3_boundary():
+    """[(kind, text)]: integer constants at max, max+1, min, min-1 of every C3 integer type, written directly and
+    through constant expressions, in every place a constant can initialise or be converted to that type"""
+    out = []
+    for (t, bits, signed) in C3_INT_TYPES:
+        hi = (1 << (bits - 1)) - 1 if signed else (1 << bits) - 1
+        lo = -(1 << (bits - 1)) if signed else 0
+        for v in (hi - 1, hi, hi + 1, hi + 2, lo + 1, lo, lo - 1, lo - 2, 2 * hi + 1, 2 * hi + 2):
+            lit = str(v) if v >= 0 else '(-%d)' % -v
+            forms = [lit, hex(v) if v >= 0 else lit, '(%s + 0)' % lit]
+            if v > 0:
+                forms.append('(%d + 1)' % (v - 1))
+            else:
+                forms.append('(%s - 1)' % (str(v + 1) if v + 1 >= 0 else '(-%d)' % -(v + 1)))
+            for f in forms:
+                for c in C3_B_CTX:
+                    out.append(('c3-boundary', 'module m;\n' + c.replace('T', t).replace('@', f) + '\n'))
+    for v in (0, 1, 31, 32, 33, 63, 64, 65, 255, 256, 65535, 65536, 2147483647, 2147483648, 2147483649, 4294967295,
+              4294967296, 9223372036854775807, 9223372036854775808, 18446744073709551615, 18446744073709551616):
+        for c in C3_B_INT:
+            if v > 70000 and ('[@]' in c or '<< @' in c):
+                continue      # no multi-gigabyte objects / numbers
+            out.append(('c3-boundary', 'module m;\n' + c.replace('@', str(v)) + '\n'))
+            out.append(('c3-boundary', 'module m;\nconst int K = 1;\n' + c.replace('@', '(%d - K + K)' % v) + '\n'))
+    seen, res = set(), []
+    for k, s in out:
+        if s not in seen:
+            seen.add(s)
+            res.append((k, s))
+    return res
